@@ -8,6 +8,7 @@ import (
 	"os"
 	"path/filepath"
 	"reflect"
+	"sort"
 	"strconv"
 
 	"go.flow.arcalot.io/engine/internal/builtinfunctions"
@@ -101,6 +102,70 @@ func EncodeF(v any) FArg {
 type FuncRequest struct {
 	Fn   string `json:"fn"`
 	Args []FArg `json:"args"`
+	// Typed (bindConstants): derive the argument types from the values (TypeOfFArg), ask the
+	// function for its result type for exactly those types and validate the result against it.
+	Typed bool `json:"typed,omitempty"`
+}
+
+// TypeOfFArg derives a schema type from a value: a map with a "$id" entry is an object with that id
+// whose properties are the other entries (all required), another map is map[string]<type of its
+// first value by key order>, a list is a list of its first element's type (strings when empty).
+func TypeOfFArg(a FArg) schema.Type {
+	switch a.T {
+	case "int":
+		return schema.NewIntSchema(nil, nil, nil)
+	case "float":
+		return schema.NewFloatSchema(nil, nil, nil)
+	case "bool":
+		return schema.NewBoolSchema()
+	case "list":
+		if len(a.L) == 0 {
+			return schema.NewListSchema(schema.NewStringSchema(nil, nil, nil), nil, nil)
+		}
+		return schema.NewListSchema(TypeOfFArg(a.L[0]), nil, nil)
+	case "map":
+		keys := make([]string, 0, len(a.M))
+		for k := range a.M {
+			if k != "$id" {
+				keys = append(keys, k)
+			}
+		}
+		sort.Strings(keys)
+		if id, isObj := a.M["$id"]; isObj {
+			props := map[string]*schema.PropertySchema{}
+			for _, k := range keys {
+				props[k] = schema.NewPropertySchema(TypeOfFArg(a.M[k]), nil, true, nil, nil, nil, nil, nil)
+			}
+			return schema.NewObjectSchema(id.S, props)
+		}
+		var vt schema.Type = schema.NewStringSchema(nil, nil, nil)
+		if len(keys) > 0 {
+			vt = TypeOfFArg(a.M[keys[0]])
+		}
+		return schema.NewMapSchema(schema.NewStringSchema(nil, nil, nil), vt, nil, nil)
+	}
+	return schema.NewStringSchema(nil, nil, nil)
+}
+
+// typedValue is Value without the "$id" markers.
+func typedValue(a FArg) any {
+	switch a.T {
+	case "list":
+		out := make([]any, len(a.L))
+		for i, e := range a.L {
+			out[i] = typedValue(e)
+		}
+		return out
+	case "map":
+		out := map[string]any{}
+		for k, e := range a.M {
+			if k != "$id" {
+				out[k] = typedValue(e)
+			}
+		}
+		return out
+	}
+	return a.Value()
 }
 
 // FuncAnswer is the worker's reply.
@@ -157,6 +222,9 @@ func CallFunc(req *FuncRequest) *FuncAnswer {
 		ans.OutOfDomain = fmt.Sprintf("arity %d != %d", len(req.Args), len(params))
 		return ans
 	}
+	if req.Typed {
+		return callTyped(fn, req)
+	}
 	args := make([]any, len(req.Args))
 	for i, a := range req.Args {
 		args[i] = a.Value()
@@ -199,6 +267,62 @@ func CallFunc(req *FuncRequest) *FuncAnswer {
 		if verr := outType.Validate(res); verr != nil {
 			ans.TypeErr = verr.Error()
 		}
+	}
+	return ans
+}
+
+// callTyped: the result of a function with a derived result type must conform to the type derived
+// for exactly the argument types of this call, whatever was derived earlier in the process.
+func callTyped(fn schema.CallableFunction, req *FuncRequest) *FuncAnswer {
+	ans := &FuncAnswer{}
+	types := make([]schema.Type, len(req.Args))
+	args := make([]any, len(req.Args))
+	for i, a := range req.Args {
+		types[i] = TypeOfFArg(a)
+		args[i] = typedValue(a)
+		if err := types[i].Validate(args[i]); err != nil {
+			ans.OutOfDomain = fmt.Sprintf("argument %d does not conform to its own derived type: %v", i, err)
+			return ans
+		}
+	}
+	res, err, p := callOnce(fn, args)
+	if p != "" {
+		ans.Panic = p
+		return ans
+	}
+	if err != nil {
+		ans.Err = err.Error()
+		return ans
+	}
+	enc := EncodeF(res)
+	ans.Result = &enc
+	var outType schema.Type
+	var terr error
+	func() {
+		defer func() {
+			if r := recover(); r != nil {
+				ans.Panic = fmt.Sprintf("Output(): %v", r)
+			}
+		}()
+		outType, _, terr = fn.Output(types)
+	}()
+	if ans.Panic != "" {
+		return ans
+	}
+	if terr != nil {
+		ans.TypeErr = "Output(): " + terr.Error()
+		return ans
+	}
+	if outType == nil {
+		ans.TypeErr = "Output() returned no type"
+		return ans
+	}
+	if verr := outType.Validate(res); verr != nil {
+		ans.TypeErr = "the result does not conform to the result type derived for the argument types of this call: " + verr.Error()
+		return ans
+	}
+	if _, uerr := outType.Unserialize(res); uerr != nil {
+		ans.TypeErr = "the result does not unserialize with the result type derived for the argument types of this call: " + uerr.Error()
 	}
 	return ans
 }
